@@ -46,6 +46,13 @@ func Pool(thorough bool) []Src {
 			p = append(p, Src{"a.xgo", s})
 		}
 	}
+	step := 3
+	if thorough {
+		step = 1
+	}
+	for _, s := range corpus.WidthSweep(step) {
+		p = append(p, Src{"a.xgo", s})
+	}
 	names, srcs := corpus.AllXGo(200000)
 	for i := range names {
 		p = append(p, Src{names[i], srcs[i]})
